@@ -24,11 +24,16 @@ def is_subclass(exc, base):
     return False
 
 
+OVERLAY = {}
+
+
 def call_raises(call):
     """exception names a call may raise per the table, or None if the callee is not tabled."""
     t = table()
     f = call.func
     name = norm(f)
+    if isinstance(f, ast.Attribute) and f.attr in OVERLAY.get('methods', {}):
+        return list(OVERLAY['methods'][f.attr])
     if name in t['calls']:
         return list(t['calls'][name])
     if isinstance(f, ast.Attribute):
